@@ -4,8 +4,6 @@ package playtak
 // the bot's lifetime while the "size" tell changes the board between games.
 
 import (
-	"context"
-
 	"github.com/nelhage/taktician/ai"
 	"github.com/nelhage/taktician/playtak"
 	"github.com/nelhage/taktician/playtak/bot"
@@ -27,9 +25,7 @@ func VerifNewFPAWithRule(rule FPARule, color tak.Color, size int) *VerifFPA {
 	}
 	g := &bot.Game{ID: "1", GameStr: "Game#1", Opponent: "opponent", Color: color, Size: size}
 	f.g = g
-	ctx, cancel := context.WithCancel(context.Background())
-	cancel()
-	v := &VerifFPA{F: f, G: g, Rule: rule, mock: mock, stub: stub, ctx: ctx}
+	v := &VerifFPA{F: f, G: g, Rule: rule, mock: mock, stub: stub}
 	g.Positions = append(g.Positions, tak.New(f.Config(size)))
 	return v
 }
